@@ -112,9 +112,33 @@ def introspect():
                 return True
             res['assignRebinds'] = bool(bound_to(v))
             b_.data = b_.data['l'] if False else b_.data      # (same object, same attribute: kept as it is)
+        # a wrapper of a VOLATILE attribute taken before a save (the value is dropped and read again afterwards): is a change
+        # through it refused (and changes nothing), or accepted (the known finding: KeyError at the next save / silently not written)
         db.disconnect()
     except Exception as e:
         res['errors'].append('assignment of a foreign wrapper: %s: %s' % (type(e).__name__, e)); res['assignRebinds'] = False
+
+    try:
+        from pony.orm import Database, Required, Json, db_session, flush
+        dbv = Database()
+        class ProbeVol(dbv.Entity):
+            v = Required(Json, volatile=True)
+        dbv.bind('sqlite', ':memory:'); dbv.generate_mapping(create_tables=True)
+        with db_session:
+            pv = ProbeVol(v={'a': [1]})
+        outcome = 'accepted'
+        try:
+            with db_session:
+                pv = ProbeVol[pv.id]; x_ = pv.v['a']; x_.append(2); flush()
+                try: x_.append(3)
+                except Exception: outcome = 'refused' if list(x_) == [1, 2] else 'raised after the change'
+                pv.v      # (read again: no pending stale bit must be left behind)
+        except Exception:
+            pass
+        res['volatileStale'] = outcome
+        dbv.disconnect()
+    except Exception as e:
+        res['errors'].append('volatile probe: %s: %s' % (type(e).__name__, e)); res['volatileStale'] = 'accepted'
 
     def elem(): return {'k': []}
     def iterable(kind, pairs):
